@@ -64,6 +64,21 @@ func (ex *Exec) callFn(st *State, fr *Frame, x *ssa.Call, fn *ssa.Function, bind
 		ex.pushFrame(st, fn, bind, args, x, fr.Depth+1)
 		return false
 	}
+	if c == nil && fn.Blocks != nil && fn.Pkg != nil && strings.HasPrefix(fn.Pkg.Pkg.Path(), cadenceMod) && fr.Depth <= 6 {
+		// A repository function nobody wrote a contract for (e.g. a helper extracted by a refactoring): its body is
+		// executed in place, like an `inline` contract would. Recursion is not followed.
+		rec := false
+		for _, f := range st.Frames {
+			if f.Fn == fn {
+				rec = true
+			}
+		}
+		if !rec {
+			ex.Inlined["auto:"+key] = true
+			ex.pushFrame(st, fn, bind, args, x, fr.Depth+1)
+			return false
+		}
+	}
 	if c == nil {
 		ex.reject("call to %s without contract (in %s)", key, fr.Fn)
 	}
